@@ -15,8 +15,8 @@ power loop is exponentiation, `right_hand_side` is the mass of the `Δ` outermos
 discrete Laplace law, it is antitone in `n`, the linear search returns the smallest admissible truncation point and
 terminates, the constructors accept exactly their documented ranges, the sample-to-share mapping represents
 `sample − n` modulo `2^w` for every width `w ≤ 32` (every residue incl. −1 reachable), the three noise passes add up,
-and the double-geometric difference has the pmf `∝ (1−p)^{|d|}` (series identity; the measure-theoretic wrapper
-"i.i.d. Bernoulli stream ⇒ this series" is not formalised: `sampler_pmf_partial`).
+and the double-geometric difference has the pmf `∝ (1−p)^{|d|}` (`double_geometric_series`; the law of the accepted
+sample of the rejection loop is assembled in `IpaVerif.Props.C12Sampler`: `sampler_law`).
 f64 rounding is outside these statements; it is measured by the correspondence suite `c12_shift`
 (bit-exact model over IEEE doubles + exact dyadic oracle with a 1e-9 band).
 -/
@@ -511,14 +511,14 @@ theorem binomial_eps_iff (mp maxEps eps : K) :
 
 end order2
 
-/-! ### sampler law (partial) -/
+/-! ### sampler law: the series behind `sampler_law` (Props/C12Sampler.lean) -/
 
-/-- **sampler_pmf_partial** — with i.i.d. Bernoulli(`p`) outcomes the two geometric draws `a₁, a₂` have
+/-- **double_geometric_series** — with i.i.d. Bernoulli(`p`) outcomes the two geometric draws `a₁, a₂` have
 `Pr[a = k] = p (1−p)^k`; the law of the difference `a₁ − a₂ = d ≥ 0` (symmetric for `−d`) is the series
 `Σ_k p(1−p)^k · p(1−p)^{k+d} = p² (1−p)^d / (1 − (1−p)²)`, i.e. proportional to `(1−p)^{|d|}` with `1 − p = e^{-ε}`.
-(Full statement, not formalised: for an i.i.d. Bernoulli(p) outcome stream, `truncatedSample` returns `x ∈ 0..2n`
-with probability `weight (1−p) n x / mass (1−p) n`.) -/
-theorem sampler_pmf_partial (p : ℝ) (d : ℕ) (h0 : 0 < p) (h1 : p ≤ 1) :
+(The full law — `truncatedSample` returns `x ∈ 0..2n` with probability `weight (1−p) n x / mass (1−p) n` — is
+`sampler_law` in `IpaVerif.Props.C12Sampler`.) -/
+theorem double_geometric_series (p : ℝ) (d : ℕ) (h0 : 0 < p) (h1 : p ≤ 1) :
     HasSum (fun k : ℕ => (p * (1 - p) ^ k) * (p * (1 - p) ^ (k + d))) (p ^ 2 * (1 - p) ^ d / (1 - (1 - p) ^ 2)) := by
   have hq0 : 0 ≤ (1 - p) ^ 2 := by positivity
   have hq1 : (1 - p) ^ 2 < 1 := by nlinarith
@@ -566,6 +566,73 @@ theorem noisy_bucket (M exact v1 v2 v3 : Nat) :
     (v3 + (v2 + (v1 + exact) % M) % M) % M = (exact + v1 + v2 + v3) % M := by
   have key : ∀ a b, (a + b % M) % M = (a + b) % M := fun a b => by rw [Nat.add_mod, Nat.mod_mod, ← Nat.add_mod]
   rw [key, ← Nat.add_assoc, key]; congr 1; omega
+
+open IpaVerif.Circuits IpaVerif.C07 in
+theorem bitsOf_length : ∀ (w v : Nat), (bitsOf w v).length = w := by
+  intro w; induction w with
+  | zero => intro v; rfl
+  | succ w ih => intro v; simp [bitsOf, ih]
+
+open IpaVerif.Circuits IpaVerif.C07 in
+theorem val_bitsOf : ∀ (w v : Nat), val (bitsOf w v) = v % 2 ^ w := by
+  intro w; induction w with
+  | zero => intro v; simp [bitsOf, val, Nat.mod_one]
+  | succ w ih =>
+    intro v
+    have hb : (v % 2 == 1).toNat = v % 2 := by
+      rcases Nat.mod_two_eq_zero_or_one v with h | h <;> simp [h]
+    simp only [bitsOf, val, ih, hb]
+    rw [Nat.pow_succ, Nat.mul_comm (2 ^ w) 2, Nat.mod_mul]
+
+open IpaVerif.Circuits IpaVerif.C07 in
+/-- **e2e_pass_value** — the executable model of one `apply_laplace_noise_pass` over `B` buckets (`Dp.e2ePass`, the
+model side of suite `c12_noise_e2e`): whenever the stream suffices, the output has one value per bucket and bucket `i`
+is `(noiseᵢ + histᵢ) mod 2^w`, where `noiseᵢ < 2^w` is the placed value of the `i`-th accepted sample
+(`share_mapping`: `noiseᵢ + n ≡ sampleᵢ (mod 2^w)`). Stated as a list relation to avoid indices. -/
+theorem e2e_pass_value (pInt shift w : Nat) : ∀ (hist script out : List Nat),
+    e2ePass pInt shift w (2 ^ w) hist script = some out →
+    List.Forall₂ (fun h o => ∃ sample, sample ≤ 2 * shift ∧
+      o = (symmetricSample (2 ^ w) w sample shift + h) % 2 ^ w) hist out := by
+  intro hist
+  induction hist with
+  | nil => intro script out h; simp [e2ePass] at h; subst h; exact List.Forall₂.nil
+  | cons h hs ih =>
+    intro script out hout
+    simp only [e2ePass] at hout
+    cases hs' : truncatedSample pInt shift (script.length + 1) script with
+    | none => simp [hs'] at hout
+    | some sr =>
+      obtain ⟨sample, rest⟩ := sr
+      simp only [hs'] at hout
+      cases hrec : e2ePass pInt shift w (2 ^ w) hs rest with
+      | none => simp [hrec] at hout
+      | some out' =>
+        simp only [hrec, Option.map_some, Option.some.injEq] at hout
+        subst hout
+        refine List.Forall₂.cons ⟨sample, ?_, ?_⟩ (ih rest out' hrec)
+        · -- accepted samples lie in 0..2n
+          have : ∀ (fuel : Nat) (s : List Nat) (v : Nat) (r : List Nat),
+              truncatedSample pInt shift fuel s = some (v, r) → v ≤ 2 * shift := by
+            intro fuel
+            induction fuel with
+            | zero => intro s v r h; simp [truncatedSample] at h
+            | succ fuel ihf =>
+              intro s v r h
+              simp only [truncatedSample] at h
+              cases hd : doubleGeometric pInt shift s with
+              | none => simp [hd] at h
+              | some dr =>
+                obtain ⟨d, rest⟩ := dr
+                simp only [hd] at h
+                split at h
+                · simp only [Option.some.injEq, Prod.mk.injEq] at h
+                  obtain ⟨rfl, _⟩ := h
+                  omega
+                · exact ihf rest v r h
+          exact this _ _ _ _ hs'
+        · have hp := noisy_bucket_pass [] (bitsOf w (symmetricSample (2 ^ w) w sample shift)) (bitsOf w h)
+            (by rw [bitsOf_length, bitsOf_length])
+          rw [hp, val_bitsOf, val_bitsOf, bitsOf_length, Nat.mod_add_mod, Nat.add_mod_mod]
 
 /-- each draw is generated by exactly the two helpers other than the excluded one, the excluded helper contributes
 the zero share, the three views are consistent and reconstruct (xor of the left components) to the drawn value. -/
